@@ -97,6 +97,7 @@ ExpectedSingle(k, a) ==
     [] k = "or0"     -> [ticks |-> <<>>, v |-> False]
     [] k = "or1"     -> [ticks |-> L(<<1>>), v |-> a[1]]
     [] k = "case1l"  -> [ticks |-> L(<<2>>), v |-> MkInt(12)]
+    [] k \in {"let0d", "letstar0d"} -> [ticks |-> L(<<1, 2>>), v |-> MkList(<<a[1], MkInt(12)>>)]
     [] k = "or2"     -> IF T(a[1]) THEN [ticks |-> L(<<1>>), v |-> a[1]] ELSE [ticks |-> L(<<1, 2>>), v |-> MkInt(12)]     \* the deciding VALUE, not #t
     [] k = "and2"    -> IF ~T(a[1]) THEN [ticks |-> L(<<1>>), v |-> a[1]] ELSE [ticks |-> L(<<1, 2>>), v |-> MkInt(12)]
     [] k = "when1"   -> IF T(a[1]) THEN [ticks |-> L(<<1, 2>>), v |-> MkInt(12)] ELSE [ticks |-> L(<<1>>), v |-> Unspec]
